@@ -32,13 +32,22 @@ def make_cfg(platform, acl_names, group_names, intfs, indent, noise_seed):
     """-> (text, expected) with sections in a seeded order"""
     rnd = random.Random(noise_seed)
     secs = []
+
+    def body_lines(lines):
+        """indented section body; for some seeds column-0 comment lines (bare `!` and `! text`) sit between the body lines"""
+        out = []
+        for k, l in enumerate(lines):
+            if noise_seed % 4 == 3 and k in (0, 1):
+                out.append("!" if k else "! temporary rule, ticket 42")
+            out.append(" " * indent + l)
+        return out
     for n in acl_names:
         typ, body = ACL_BODIES[platform][n]
         head = f"ip access-list {typ} {n}" if platform == "ios" else f"ip access-list {n}"
-        secs.append("\n".join([head] + [" " * indent + l for l in body]))
+        secs.append("\n".join([head] + body_lines(body)))
     for g in group_names:
         head = f"object-group network {g}" if platform == "ios" else f"object-group ip address {g}"
-        secs.append("\n".join([head] + [" " * indent + l for l in GROUP_BODIES[platform][g]]))
+        secs.append("\n".join([head] + body_lines(GROUP_BODIES[platform][g])))
     for name, binds in intfs:
         secs.append("\n".join([f"interface {name}"] + [" " * indent + "description uplink"] + [" " * indent + f"ip access-group {a} {d}" for a, d in binds]))
     for k in range(noise_seed % 3):
